@@ -101,6 +101,9 @@ def _m(p, n, env):
             return False
         return all(_m(a, b, env) for a, b in zip(p, n))
     if isinstance(p, ast.AST):
+        if isinstance(p, ast.Expr) and isinstance(p.value, ast.Name) and is_mv(p.value.id) and isinstance(n, ast.stmt) \
+                and not isinstance(n, ast.Expr):
+            return _bind(p.value.id, n, env)  # a metavariable statement matches any statement
         if isinstance(p, ast.Assign) and isinstance(n, ast.AnnAssign) and len(p.targets) == 1 and n.value is not None:
             # an annotated assignment is an assignment
             return _m(p.targets[0], n.target, env) and _m(p.value, n.value, env)
